@@ -96,10 +96,9 @@ fn single_group(text: &str) -> bool {
 }
 
 /// The expression shapes known finding F6 covers:
-/// (a) "a branch after a tree wildcard": a tree wildcard component with an alternation or
-///     repetition in some later component (`**/{a}`, `**/{a,bc}`, `**/<a:1,2>`, `x/**/{a/**,b}`,
-///     `**/{a}/*`, `**/*{/**/b,/a}`) — the branch lets the right-to-left scan of the
-///     exhaustiveness fold pass over bounded text and reach the tree wildcard;
+/// (a) "a branch after a tree wildcard" (`**/{a}`, `**/{a,bc}`, `**/<a:1,2>`, `**/*{/**/b,/a}`):
+///     REPAIRED in the code under test (5a3010b) and no longer explained here, so that its return
+///     is reported;
 /// (b) the whole expression is one repetition whose body ends on a separator (`<*/>`, `<*/:1,>`,
 ///     `<<?>/>`), which only ever matches the empty path among paths without a trailing separator.
 fn f6_shape(text: &str) -> bool {
@@ -121,10 +120,10 @@ fn f6_shape(text: &str) -> bool {
         false
     };
     let _ = last;
-    let a = comps
-        .iter()
-        .position(|c| c == "**")
-        .map_or(false, |i| comps[i + 1..].iter().any(|c| has_group(c)));
+    // shape (a) — a `**` component followed by a component with a group — was repaired in the
+    // code under test ("fixed" entry F6a): it explains nothing any more
+    let _ = has_group;
+    let a = false;
     let b = comps.len() == 1 && text.starts_with('<') && single_group(text) && {
         let inner = &text[1..text.len() - 1];
         let body = match inner.rfind(':') {
